@@ -135,4 +135,186 @@ theorem json_query_refines_spec (vs : List JVal)
       (Spec.runKF (Store.build (vs.flatMap Json.eventsOf)) env 0 e) :=
   ⟨Json.json_refines vs, stream_query_refines_spec _ (json_events_ordered vs) env henv e hsum hb⟩
 
+/-! ### 11. expressions without `round`/`substring`: the unmodified specification -/
+
+/-- the function names whose builtin reads `Sem.round` -/
+def roundName (nm : Chars) : Bool :=
+  String.ofList nm == "round" || String.ofList nm == "substring"
+
+mutual
+/-- no call of a function named `round` or `substring` anywhere in the expression -/
+def noRound : Expr → Bool
+  | .bin _ l r => noRound l && noRound r
+  | .neg e => noRound e
+  | .call base _ name args => noRound base && !roundName name && noRoundL args
+  | .step base _ _ preds => noRound base && noRoundL preds
+  | .filt base p => noRound base && noRound p
+  | _ => true
+def noRoundL : Exprs → Bool
+  | .nil => true
+  | .cons e es => noRound e && noRoundL es
+end
+
+theorem semKF_sv : Spec.semKF.sv = Spec.sem.sv := rfl
+theorem semKF_axis : Spec.semKF.axis = Spec.sem.axis := rfl
+theorem semKF_perNode : Spec.semKF.perNode = Spec.sem.perNode := rfl
+theorem semKF_compare : Spec.semKF.compare = Spec.sem.compare := rfl
+
+theorem builtin_noRound (c : Ctx) (nm : Chars) (vs : List Val) (h : roundName nm = false) :
+    builtin Spec.semKF c nm vs = builtin Spec.sem c nm vs := by
+  unfold roundName at h
+  unfold builtin
+  simp only []
+  split
+  all_goals first
+    | rfl
+    | (rename_i heq; rw [heq] at h; exact absurd h (by decide))
+
+def NRE (e : Expr) : Prop := noRound e = true → ∀ c, eval Spec.semKF e c = eval Spec.sem e c
+def NRL (es : Exprs) : Prop := noRoundL es = true →
+  (∀ c, evalArgs Spec.semKF es c = evalArgs Spec.sem es c) ∧
+  (∀ c l, applyPreds Spec.semKF es c l = applyPreds Spec.sem es c l)
+
+theorem nr_applyPred {p : Expr} (ih : NRE p) (hp : noRound p = true) (c : Ctx) (l : List Nat) :
+    applyPred Spec.semKF p c l = applyPred Spec.sem p c l := by
+  rw [applyPred, applyPred]
+  congr 1
+  funext i n
+  rw [ih hp]
+
+theorem nr_bin (op : BinOp) {l r : Expr} (ihl : NRE l) (ihr : NRE r) : NRE (.bin op l r) := by
+  intro h c
+  simp only [noRound, Bool.and_eq_true] at h
+  rw [eval, eval, ihl h.1, ihr h.2]
+  rfl
+
+theorem nr_neg {e : Expr} (ih : NRE e) : NRE (.neg e) := by
+  intro h c
+  simp only [noRound] at h
+  rw [eval, eval, ih h]
+  rfl
+
+theorem nr_call {base : Expr} (pfx : Option Chars) (name : Chars) {args : Exprs}
+    (ihb : NRE base) (iha : NRL args) : NRE (.call base pfx name args) := by
+  intro h c
+  simp only [noRound, Bool.and_eq_true, Bool.not_eq_true'] at h
+  obtain ⟨⟨hb, hn⟩, ha⟩ := h
+  rw [eval, eval, ihb hb]
+  cases hbv : eval Spec.sem base c with
+  | error e => rfl
+  | ok b =>
+    simp only [bind, Except.bind]
+    rw [(iha ha).1]
+    cases evalArgs Spec.sem args { c with result := b } with
+    | error e => rfl
+    | ok vs =>
+      simp only []
+      cases hq : resolve c.env pfx name with
+      | error e => rfl
+      | ok q =>
+        simp only []
+        have hq2 : q.2 = name := resolve_snd hq
+        cases lookupQ q c.env.fns with
+        | some f =>
+          simp only []
+          exact userFn_sem_congr _ _ _ rfl f vs
+        | none =>
+          simp only []
+          rw [hq2, builtin_noRound _ _ _ hn]
+
+theorem nr_filt {base p : Expr} (ihb : NRE base) (ihp : NRE p) : NRE (.filt base p) := by
+  intro h c
+  simp only [noRound, Bool.and_eq_true] at h
+  rw [eval, eval, ihb h.1]
+  cases eval Spec.sem base c with
+  | error e => rfl
+  | ok b =>
+    simp only [bind, Except.bind]
+    cases b.nodes? with
+    | error e => rfl
+    | ok l =>
+      simp only []
+      rw [nr_applyPred ihp h.2]
+
+theorem nr_step {base : Expr} (ax : Axis) (t : NodeTest) {preds : Exprs} (ihb : NRE base)
+    (ihp : NRL preds) : NRE (.step base ax t preds) := by
+  intro h c
+  simp only [noRound, Bool.and_eq_true] at h
+  rw [eval, eval, ihb h.1]
+  have hp := (ihp h.2).2
+  simp only [semKF_perNode, semKF_axis, hp]
+
+theorem nr_nil : NRL .nil := by
+  intro _
+  exact ⟨fun c => by rw [evalArgs, evalArgs], fun c l => by rw [applyPreds, applyPreds]⟩
+
+theorem nr_cons {e : Expr} {es : Exprs} (ihe : NRE e) (ihes : NRL es) : NRL (.cons e es) := by
+  intro h
+  simp only [noRoundL, Bool.and_eq_true] at h
+  constructor
+  · intro c
+    rw [evalArgs, evalArgs, ihe h.1, (ihes h.2).1]
+  · intro c l
+    rw [applyPreds, applyPreds, nr_applyPred ihe h.1]
+    cases applyPred Spec.sem e c l with
+    | error e => rfl
+    | ok kept =>
+      simp only [bind, Except.bind]
+      exact (ihes h.2).2 c kept
+
+theorem nr_all (e : Expr) : NRE e :=
+  @Expr.rec NRE NRL
+    (fun op _ _ ihl ihr => nr_bin op ihl ihr)
+    (fun _ ih => nr_neg ih)
+    (fun _ _ c => by rw [eval, eval]) (fun _ _ c => by rw [eval, eval])
+    (fun _ _ _ c => by rw [eval, eval])
+    (fun _ pfx name _ ihb iha => nr_call pfx name ihb iha)
+    (fun _ c => by rw [eval, eval]) (fun _ c => by rw [eval, eval])
+    (fun _ ax t _ ihb ihp => nr_step ax t ihb ihp)
+    (fun _ _ ihb ihp => nr_filt ihb ihp)
+    nr_nil
+    (fun _ _ ihe ihes => nr_cons ihe ihes)
+    e
+
+/-- **semKF_eq_sem_of_noRound** — on an expression that calls neither `round` nor `substring` the
+    specification with the recorded deviation IS the specification -/
+theorem semKF_eq_sem_of_noRound (e : Expr) (h : noRound e = true) (c : Ctx) :
+    eval Spec.semKF e c = eval Spec.sem e c := nr_all e h c
+
+theorem runKF_eq_run_of_noRound (a : Arena) (env : Env) (start : Nat) (e : Expr)
+    (h : noRound e = true) : Spec.runKF a env start e = Spec.run a env start e :=
+  nr_all e h _
+
+/-- **run_refines_spec_noRound** — for such expressions `exec.Exec` refines the XPath 1.0
+    specification itself (`Spec.sem`, no known finding involved) -/
+theorem run_refines_spec_noRound (a : Arena) (h : wfb a = true) (env : Env) (henv : EnvOk a env)
+    (e : Expr) (start : Nat) (hs : start < a.size) (hsum : sumSafe true e = true)
+    (hb : prefixesBound env e = true) (hnr : noRound e = true) :
+    Res.Equiv (Model.run a env start e) (Spec.run a env start e) := by
+  rw [← runKF_eq_run_of_noRound a env start e hnr]
+  exact run_refines_spec' a h env henv e start hs hsum hb
+
+theorem xml_query_refines_spec_noRound (top : Xml.XNodes) (h : XmlL.WFDoc top)
+    (env : Env) (henv : EnvOk (Store.build (Xml.events (Xml.docTokens top))) env) (e : Expr)
+    (hsum : sumSafe true e = true) (hb : prefixesBound env e = true) (hnr : noRound e = true) :
+    Res.Equiv (Model.run (Store.build (Xml.events (Xml.docTokens top))) env 0 e)
+      (Spec.run (Store.build (Xml.events (Xml.docTokens top))) env 0 e) := by
+  rw [← runKF_eq_run_of_noRound _ env 0 e hnr]
+  exact (xml_query_refines_spec top h env henv e hsum hb).2
+
+theorem json_query_refines_spec_noRound (vs : List JVal)
+    (env : Env) (henv : EnvOk (Store.build (vs.flatMap Json.eventsOf)) env) (e : Expr)
+    (hsum : sumSafe true e = true) (hb : prefixesBound env e = true) (hnr : noRound e = true) :
+    Res.Equiv (Model.run (Store.build (vs.flatMap Json.eventsOf)) env 0 e)
+      (Spec.run (Store.build (vs.flatMap Json.eventsOf)) env 0 e) := by
+  rw [← runKF_eq_run_of_noRound _ env 0 e hnr]
+  exact (json_query_refines_spec vs env henv e hsum hb).2.2
+
+/-- non-vacuity: `//a[position() = 2]/b[last()]` satisfies all three side conditions -/
+example : noRound
+    (.step (.step (.step .root .descendantOrSelf .node .nil) .child (.name "a".toList)
+      (.cons (.bin (.cmp .eq) (.call .ctx none "position".toList .nil) (.num (Num.ofNat 2))) .nil))
+      .child (.name "b".toList) (.cons (.call .ctx none "last".toList .nil) .nil)) = true := by
+  decide
+
 end Xsel.Chain
